@@ -54,6 +54,17 @@ def enumerate_cases(tier, scope):
                     yield {'spec': tree2, 'emissions': [['a', 1], ['ext', value]], 'ret': 0}
                 yield {'spec': tree, 'emissions': [['a', 1], ['sub.q', 2]], 'ret': 5}
                 yield {'spec': tree, 'emissions': [], 'ret': 5}
+    # a port-less namespace declared a second time with other options: the last declaration counts
+    for first in shapes:
+        for second in shapes:
+            if first == second:
+                continue
+            tree = pm.ns({'a': pm.port(required=False), 'ext': pm.ns({}, **first), 'g': pm.ns({'inner': pm.ns({}, **first)})})
+            for path in (['ext'], ['g', 'inner']):
+                for value in (1, 's', {'k': 1}):
+                    yield {'spec': tree, 'redeclare': [[path, second]], 'emissions': [['.'.join(path) + '.x', value]], 'ret': 0}
+                yield {'spec': tree, 'redeclare': [[path, second]], 'emissions': [['.'.join(path), {'x': 1}]], 'ret': 0}
+                yield {'spec': tree, 'redeclare': [[path, second]], 'emissions': [], 'ret': 0}
     # a three-level tree under spec classes with another namespace separator
     deep = pm.ns({'r': pm.ns({'s': pm.ns({'e': pm.port(required=True, valid_type='int')}, valid_type='int'), 'x': pm.ns({}, valid_type='int', required=False)}), 'a': pm.port(required=False)})
     for sep in SEPARATORS:
@@ -89,6 +100,12 @@ def _ns(draw, depth):
         validator=None if is_dyn else draw(st.sampled_from([None, None, 'has_a', 'small'])),
         populate_defaults=True,
     )
+
+
+def _node(tree, path):
+    for name in path.split('.'):
+        tree = tree['ports'][name]
+    return tree
 
 
 def _paths(tree, prefix=''):
@@ -144,6 +161,10 @@ def _cases(draw, tier):
             spaces.add(p)
         emissions.append([path, value])
     case = {'spec': tree, 'emissions': emissions, 'ret': draw(st.sampled_from([0, 5, None, 'r']))}
+    empties = [p.split('.') for p, kind in declared if kind == 'ns' and not _node(tree, p)['ports']]
+    if empties and draw(st.integers(0, 2)) == 0:
+        path = draw(st.sampled_from(empties))
+        case['redeclare'] = [[path, dict(required=draw(st.booleans()), dynamic=draw(st.booleans()), valid_type=draw(st.sampled_from([None, 'int', 'str'])), validator=None, populate_defaults=True)]]
     if draw(st.integers(0, 3)) == 0:
         case['sep'] = draw(st.sampled_from(SEPARATORS))
     return case
@@ -159,11 +180,12 @@ def execute(case):
     def v(clause, detail):
         viol.append({'clause': clause, 'detail': detail})
 
-    tree = case['spec']
+    declared_tree = case['spec']
+    tree = pm.redeclared(declared_tree, case.get('redeclare'))
     emissions = case['emissions']
     program = {
         'steps': [{'async': False, 'body': [['out', p, val] for p, val in emissions], 'ret': ['value', case.get('ret', 0)]}],
-        'spec': {'outputs': tree},
+        'spec': {'outputs': declared_tree, 'redeclare': case.get('redeclare') or []},
         'snapshot_outputs': True,
     }
     sep = case.get('sep')
@@ -238,6 +260,8 @@ def execute(case):
         classes.append('nested-path')
     if sep:
         classes.append('custom-separator')
+    if case.get('redeclare'):
+        classes.append('namespace-redeclared')
     if any((p, 'ns') in set(_paths(tree)) for p, _ in emissions):
         classes.append('mapping-onto-declared-namespace')
     return {
